@@ -19,6 +19,8 @@ False of the unchanged code, with witness and complement:
   un-negated `--syn`, F-C05s — repaired in /repo, now covered: `kernel_roundtrip_syn`.)
 * `iptables_diff_iff` — false for a table with the empty name (`iptables_diff_iff_counterexample`);
   proved when no name is empty: `iptables_diff_iff_partial`.
+* `kernel_roundtrip` is also false for a MARK with a non-default mask (`kernel_roundtrip_mask_counterexample`,
+  F-C05k); such options are outside `AOpt.wf`.
 * `normalize_idempotent` — false in general (`normalize_idempotent_counterexample`); proved on
   stable maps: `normalize_idempotent_partial`.
 * `normalize_sound` — false for a repeated option key (`normalize_sound_counterexample`); what equal
@@ -204,6 +206,15 @@ theorem kernel_roundtrip_counterexample :
       getA (s "-m") (normalize pk) ≠ getA (s "-m") (normalize pu) :=
   ⟨{}, exStateFirst, _, _, by decide, rfl, rfl, by decide⟩
 
+/-- A mark with a mask other than the default is outside the grammar (`AOpt.wf`) for a reason: the
+kernel prints `--set-mark 0x10/0xf0` as `--set-xmark 0x10/0xf0`, which the code neither renames nor
+rewrites; the device's map has `--set-xmark`, the target's `--set-mark` (F-C05k). -/
+theorem kernel_roundtrip_mask_counterexample :
+    ∃ (cfg : KCfg) (r : ARule) (pk pu : Pairs),
+      parsePairs (kernelWords cfg r) = some pk ∧ parsePairs (userWords r) = some pu ∧
+      getA (s "--set-mark") (normalize pk) ≠ getA (s "--set-mark") (normalize pu) :=
+  ⟨{}, [.jump (s "MARK"), .setMark (s "10") (s "f0") false (s "0x10/0xf0")], _, _, rfl, rfl, by decide⟩
+
 /-- An un-negated `--syn`, which the kernel prints as `--tcp-flags FIN,SYN,RST,ACK SYN`, is inside the
 grammar since the repair of F-C05s (before it the device's map had `--tcp-flags`, the target's `--syn`). -/
 theorem kernel_roundtrip_syn : RuleOK {} [.jump (s "ACCEPT"), .proto .no .tcp false false, .syn false false] := by
@@ -223,7 +234,7 @@ example : (keys exA).Nodup ∧ (keys exB).Nodup := by decide
 example : (diffRoutes exA exB).length = 3 := by decide
 
 def exRule : ARule :=
-  [.jump (s "MARK"), .setMark (s "f") true (s "0X0F/0XFFFFFFFF"), .proto .before .tcp true false,
+  [.jump (s "MARK"), .setMark (s "f") (s "ffffffff") true (s "0X0F/0XFFFFFFFF"), .proto .before .tcp true false,
    .src .after (s "10.1.1.1") (s "32") false]
 def exRule2 : ARule :=
   [.proto .no .udp true false, .sport (.range (s "0") (s "1023")) 2 true, .dport (.range (s "1024") (s "65535")) 0 true,
@@ -245,7 +256,7 @@ def obligations : List Lean.Name := [
   ``normalize_idempotent_partial, ``normalize_idempotent_counterexample,
   ``normalize_sound_partial, ``normalize_sound_counterexample,
   ``kernel_roundtrip_partial, ``kernel_roundtrip_no_diff,
-  ``kernel_roundtrip_counterexample, ``kernel_roundtrip_syn,
+  ``kernel_roundtrip_counterexample, ``kernel_roundtrip_mask_counterexample, ``kernel_roundtrip_syn,
   ``opt_roundtrip, ``parsePairs_words, ``getA_normalize]
 
 end NA.C05
